@@ -2,8 +2,10 @@ package c20
 
 import (
 	"bytes"
+	"context"
 	"errors"
 	"fmt"
+	"net"
 	"net/http"
 	"strings"
 	"testing"
@@ -48,6 +50,10 @@ type tunnelLab struct {
 	Trace     bool     `json:"trace"`
 	BigFrames bool     `json:"single_frame_messages"` // write buffers of 256 KiB: a message is one frame (else 4 KiB fragments)
 	Subproto  bool     `json:"subprotocol"`
+	// NoGzipOffer: the client's handshake carries no Accept-Encoding (the gzip plugin then stays passive)
+	NoGzipOffer bool `json:"no_accept_encoding,omitempty"`
+	// Answer scripts what precedes and accompanies the backend's 101 (handshake.go); nil = a bare 101 at once
+	Answer *answerSpec `json:"backend_answer,omitempty"`
 }
 
 type step struct {
@@ -281,8 +287,34 @@ const chatterEvery = 200 * time.Millisecond
 // runTaggedConversation is runConversation for one of several sessions that run in parallel on the
 // same lab: tag travels in the handshake (X-Verif-Session) and selects the backend end of this session.
 func runTaggedConversation(l *wsLab, tl tunnelLab, cv conversation, tag string) (viol string) {
+	return runObservedConversation(l, tl, cv, tag, nil)
+}
+
+// runObservedConversation also reports what the client saw of the handshake answer (obs may be nil).
+func runObservedConversation(l *wsLab, tl tunnelLab, cv conversation, tag string, obs *handshakeObs) (viol string) {
 	d := websocket.Dialer{HandshakeTimeout: ioBudget, ReadBufferSize: 4096, WriteBufferSize: 4096}
 	hdr := http.Header{"Accept-Encoding": {"gzip"}, "X-Client-Tag": {"c20"}}
+	if tl.NoGzipOffer {
+		hdr.Del("Accept-Encoding")
+	}
+	if tl.Answer != nil {
+		if obs == nil {
+			obs = &handshakeObs{}
+		}
+		hdr.Set(answerHeader, tl.Answer.encode())
+		d.EnableCompression = tl.Answer.Deflate
+		// the client reads over interim responses, as every HTTP/1.1 client does
+		d.NetDialContext = func(ctx context.Context, network, addr string) (net.Conn, error) {
+			c, err := (&net.Dialer{}).DialContext(ctx, network, addr)
+			if err != nil {
+				return nil, err
+			}
+			*obs = handshakeObs{}
+			return newSkipInterimConn(c, obs), nil
+		}
+	} else {
+		obs = nil
+	}
 	if tag != "" {
 		hdr.Set("X-Verif-Session", tag)
 	}
@@ -328,7 +360,7 @@ func runTaggedConversation(l *wsLab, tl tunnelLab, cv conversation, tag string) 
 		if resp != nil {
 			st = fmt.Sprintf(" (Helios answered %s)", resp.Status)
 		}
-		return fmt.Sprintf("the WebSocket session could not be established through Helios%s: %v", st, err)
+		return fmt.Sprintf("the WebSocket session could not be established through Helios%s: %v%s%s", st, err, tl.Answer.describe(), obs.describe())
 	}
 	s := &session{l: l, client: newPeer("client", cc, l.notify)}
 	defer s.client.kill()
@@ -484,7 +516,9 @@ func (s *session) progressText(toServer, toClient int) string {
 
 func TestC20Tunnel(t *testing.T) {
 	sub := lab.Sub("websocket-tunnel", "rapid: lab (5 strategies x 1-2 gorilla/websocket backends x plugin chain = any sequence of length 0-4 over {logging, size_limit(8 B response limit), gzip, headers, request-id} x request_id/trace on/off x "+
-		"single-frame or 4 KiB-fragmented messages x subprotocol) behind a real http.Server with the real handler chain, gorilla client sending Accept-Encoding: gzip; 1-2 sessions, each a script of <= 40 steps over "+
+		"single-frame or 4 KiB-fragmented messages x subprotocol) behind a real http.Server with the real handler chain, gorilla client sending Accept-Encoding: gzip (none in 1 lab of 3); 1-2 sessions, "+
+		"each with its own drawn backend answer to the opening handshake: after 0/10/60 ms, 0-3 interim responses (103 Early Hints with Link fields, 102 Processing, 100 Continue; optionally 15 ms apart) before the 101, "+
+		"the 101 optionally carrying further fields (two Set-Cookie, a 3000-byte token, Server + Cache-Control, Vary + an empty field) and, in 1 of 8, agreeing on permessage-deflate (the client reads over interim responses like any HTTP/1.1 client and then requires one complete 101); each session a script of <= 40 steps over "+
 		"{client sends text|binary of 0,1,125,126,65535,65536,102400 B, same with backend echo, backend sends unsolicited, ping from either side, sync}, queued without waiting (both directions in flight together), ended by a drawn side with a close frame (drawn code/reason) or an abrupt TCP close, preceded by a burst of 0-3 messages from the closing side and, in 1 of 6 sessions, by a flood of 16 or 64 further 100 KiB messages while the other side does not read for 300/600 ms and then reads one message per 3 ms (more than its socket buffers hold is still on its way when the closing side closes); "+
 		"oracle: each side received exactly the (type, payload) sequence the other side's writer sent, pongs match pings, a close frame arrives with its code and reason, and after one side closes the other side's read ends within a 5 s no-progress watchdog; "+
 		"non-trivial = data in both directions and a non-empty plugin chain")
@@ -492,13 +526,17 @@ func TestC20Tunnel(t *testing.T) {
 	sub.Floor("close-abrupt-client", 0.10)
 	sub.Floor("close-abrupt-backend", 0.10)
 	sub.Floor("size>=64KiB", 0.30)
-	lab.Assume("L2 (C20): handler composition replicates cmd/helios/server.go (lab.BuildHandler) with the default server timeouts; gorilla/websocket v1.5.3 is both client and backend; loopback TCP; no TLS, no permessage-deflate")
+	sub.Floor("answer-interim-before-101", 0.25)
+	sub.Floor("answer-interim-chain-writes-through", 0.12)
+	lab.Assume("L2 (C20): handler composition replicates cmd/helios/server.go (lab.BuildHandler) with the default server timeouts; gorilla/websocket v1.5.3 is both client and backend; loopback TCP; no TLS; permessage-deflate only as negotiated by gorilla (no context takeover)")
+	lab.Assume("interim (1xx) responses of the backend are not judged themselves (the statement is about the session): the client skips whatever interim responses reach it and the oracle starts at the final response, which must be a complete 101; how many reached the client is recorded as a label")
 	lab.Assume("a close is issued at a quiescent point: messages still in flight TOWARDS a side that closes are not explored (they cannot be delivered); messages sent BY the closing side right before closing must arrive")
 	lab.Assume("frame masking keys are chosen by the client library, so 'unmodified' is decided on (type, payload, order, close code/reason), not on raw wire bytes")
 	maxSteps := 40
 	lab.Check(t, sub, 300, 10000, func(rt *rapid.T) {
 		tl := tunnelLab{Strategy: rapid.SampledFrom(lab.Strategies).Draw(rt, "strategy"), Backends: rapid.IntRange(1, 2).Draw(rt, "backends"),
-			ReqID: rapid.Bool().Draw(rt, "reqid"), Trace: rapid.Bool().Draw(rt, "trace"), BigFrames: rapid.Bool().Draw(rt, "bigframes"), Subproto: rapid.Bool().Draw(rt, "subproto")}
+			ReqID: rapid.Bool().Draw(rt, "reqid"), Trace: rapid.Bool().Draw(rt, "trace"), BigFrames: rapid.Bool().Draw(rt, "bigframes"), Subproto: rapid.Bool().Draw(rt, "subproto"),
+			NoGzipOffer: rapid.IntRange(0, 2).Draw(rt, "nogzipoffer") == 0}
 		nc := rapid.IntRange(0, 4).Draw(rt, "chainlen")
 		for i := 0; i < nc; i++ {
 			tl.Chain = append(tl.Chain, rapid.SampledFrom(pluginPool).Draw(rt, "plugin"))
@@ -521,15 +559,22 @@ func TestC20Tunnel(t *testing.T) {
 		}
 		defer l.Close()
 		for si := 0; si < sessions; si++ {
+			tl := tl
+			tl.Answer = genAnswer(rt) // every session's handshake is answered in its own way
 			cv := genConversation(rt, maxSteps)
-			viol := runConversation(l, tl, cv)
+			var obs handshakeObs
+			viol := runObservedConversation(l, tl, cv, "", &obs)
 			if envProblem(viol) {
 				return
 			}
 			labels, nt := tunnelLabels(tl, cv)
+			labels = append(labels, answerLabels(tl, &obs)...)
 			sub.Case(map[string]any{"lab": tl, "session": si, "conversation": cv}, nt, labels...)
 			if viol != "" {
-				rt.Fatalf("lab %+v\nsession #%d: %d steps %+v\nclose %+v\n=> %s", tl, si, len(cv.Steps), cv.Steps, cv.Close, viol)
+				if !strings.Contains(viol, "the backend's answer to the handshake was") {
+					viol += tl.Answer.describe() + obs.describe()
+				}
+				rt.Fatalf("lab %+v answer %+v\nsession #%d: %d steps %+v\nclose %+v\n=> %s", tl, *tl.Answer, si, len(cv.Steps), cv.Steps, cv.Close, viol)
 			}
 		}
 		if p := l.panicLines(); len(p) > 0 {
@@ -581,4 +626,55 @@ func tunnelLabels(tl tunnelLab, cv conversation) (labels []string, nontrivial bo
 		labels = append(labels, "fragmented")
 	}
 	return labels, c2b && b2c && len(tl.Chain) > 0
+}
+
+// answerLabels classifies how the backend answered the handshake and what the client saw of it
+// (what it saw is recorded, not judged: the statement says nothing about interim responses themselves).
+func answerLabels(tl tunnelLab, obs *handshakeObs) (labels []string) {
+	a := tl.Answer
+	if a == nil {
+		return nil
+	}
+	if len(a.Interim) == 0 {
+		labels = append(labels, "answer-bare-101")
+	} else {
+		labels = append(labels, "answer-interim-before-101", fmt.Sprintf("answer-interim-x%d", len(a.Interim)))
+		seen := map[int]bool{}
+		for _, in := range a.Interim {
+			if !seen[in.Code] {
+				seen[in.Code] = true
+				labels = append(labels, fmt.Sprintf("answer-interim-%d", in.Code))
+			}
+		}
+		passive := true // no plugin of the chain that holds back the response head is in the way
+		for _, p := range tl.Chain {
+			if p == "size_limit" || (p == "gzip" && !tl.NoGzipOffer) {
+				passive = false
+			}
+		}
+		if passive {
+			labels = append(labels, "answer-interim-chain-writes-through")
+		}
+		switch n := len(obs.Interim); {
+		case n == len(a.Interim):
+			labels = append(labels, "interim-all-reached-client")
+		case n == 0:
+			labels = append(labels, "interim-none-reached-client")
+		default:
+			labels = append(labels, "interim-some-reached-client")
+		}
+	}
+	if a.DelayMs > 0 {
+		labels = append(labels, "answer-delayed")
+	}
+	if len(a.Extra) > 0 {
+		labels = append(labels, "answer-101-extra-fields")
+	}
+	if a.Deflate {
+		labels = append(labels, "permessage-deflate")
+	}
+	if tl.NoGzipOffer {
+		labels = append(labels, "no-accept-encoding")
+	}
+	return labels
 }
